@@ -545,6 +545,10 @@ func (ambiguous Ambiguous) Reverse(length int) Location {
 
 // Normalize returns a location normalized for the given length sequence.
 func (ambiguous Ambiguous) Normalize(length int) Location {
+	if start, end := ambiguous.Start%length, (ambiguous.End-1)%length+1; start < end {
+		// The span does not cross the origin: the end may equal the length.
+		return Ambiguous{start, end}
+	}
 	return Ambiguous{ambiguous.Start % length, ambiguous.End % length}
 }
 
